@@ -199,6 +199,95 @@ Section Presentations.
   Qed.
 End Presentations.
 
+(* ------------------------------------------------------------------ transposition: column-major presentations *)
+Definition rect {A} (k : nat) (m : list (list A)) : Prop := Forall (fun r => List.length r = k) m.
+
+Lemma map2_length {A B C} (f : A -> B -> C) a b : List.length (map2 f a b) = Nat.min (List.length a) (List.length b).
+Proof. revert b. induction a as [|x a IH]; intros [|y b]; cbn [map2 List.length Nat.min]; auto. Qed.
+
+Lemma transpose_cons {A} (c : list A) (rest : list (list A)) : rest <> [] ->
+  transpose (c :: rest) = map2 cons c (transpose rest).
+Proof. destruct rest; [congruence | reflexivity]. Qed.
+
+Lemma transpose_single {A} (c : list A) : transpose [c] = map (fun x => [x]) c.
+Proof. reflexivity. Qed.
+
+Lemma transpose_length {A} k (m : list (list A)) : m <> [] -> rect k m -> List.length (transpose m) = k.
+Proof.
+  induction m as [|r m IH]; intros Hne Hr; [congruence|].
+  inversion Hr as [|? ? Hk Hm]; subst. destruct m as [|r' m'].
+  - rewrite transpose_single, map_length. reflexivity.
+  - rewrite transpose_cons by discriminate. rewrite map2_length, IH by (auto; discriminate). lia.
+Qed.
+
+Lemma transpose_sing {A} (r : list A) : r <> [] -> transpose (map (fun x => [x]) r) = [r].
+Proof.
+  induction r as [|x r IH]; intros Hne; [congruence|]. destruct r as [|y r'].
+  - reflexivity.
+  - cbn [map]. rewrite transpose_cons by discriminate. change ([y] :: map (fun x0 => [x0]) r') with (map (fun x0 : A => [x0]) (y :: r')).
+    rewrite IH by discriminate. reflexivity.
+Qed.
+
+Lemma transpose_map2_cons {A} (c : list A) : forall M, List.length c = List.length M -> M <> [] ->
+  transpose (map2 cons c M) = c :: transpose M.
+Proof.
+  induction c as [|x c IH]; intros [|r M] Hl Hne; cbn [List.length] in Hl; try congruence; try lia.
+  cbn [map2]. destruct c as [|x' c'], M as [|r' M']; cbn [List.length] in Hl; try lia.
+  - reflexivity.
+  - assert (E : map2 cons (x' :: c') (r' :: M') <> []) by (cbn [map2]; discriminate).
+    rewrite transpose_cons by exact E. rewrite IH by (cbn [List.length]; try lia; discriminate).
+    rewrite (transpose_cons r) by discriminate. reflexivity.
+Qed.
+
+Theorem transpose_involutive {A} k (m : list (list A)) : m <> [] -> (0 < k)%nat -> rect k m -> transpose (transpose m) = m.
+Proof.
+  intros Hne Hk. induction m as [|r m IH]; intros Hr; [congruence|].
+  inversion Hr as [|? ? Hlen Hm]; subst. destruct m as [|r' m'].
+  - rewrite transpose_single. apply transpose_sing. destruct r; [cbn in Hk; lia | discriminate].
+  - rewrite transpose_cons by discriminate.
+    assert (Hl : List.length (transpose (r' :: m')) = List.length r) by (apply transpose_length; [discriminate | exact Hm]).
+    rewrite transpose_map2_cons.
+    + rewrite IH by (auto; discriminate). reflexivity.
+    + symmetry; exact Hl.
+    + intros E. rewrite E in Hl. cbn in Hl. lia.
+Qed.
+
+Lemma map2_cons_map {A B} (f : A -> B) (a : list A) : forall M,
+  map (map f) (map2 cons a M) = map2 cons (map f a) (map (map f) M).
+Proof. induction a as [|x a IH]; intros [|r M]; cbn [map2 map]; auto. rewrite IH. reflexivity. Qed.
+
+Lemma transpose_map {A B} (f : A -> B) (m : list (list A)) : transpose (map (map f) m) = map (map f) (transpose m).
+Proof.
+  induction m as [|r m IH]; [reflexivity|]. destruct m as [|r' m'].
+  - cbn [map]. rewrite !transpose_single, !map_map. reflexivity.
+  - change (map (map f) (r :: r' :: m')) with (map f r :: map (map f) (r' :: m')).
+    rewrite transpose_cons by (cbn [map]; discriminate). rewrite IH. rewrite (transpose_cons r) by discriminate.
+    rewrite map2_cons_map. reflexivity.
+Qed.
+
+(* the presentations of ONE rectangular matrix all abstract to the same request data *)
+Lemma col_values_QCol T : map col_values (map QCol T) = T.
+Proof. rewrite map_map. cbn [col_values]. apply map_id. Qed.
+Lemma col_values_ZCol T : map col_values (map ZCol T) = of_ints T.
+Proof. rewrite map_map. reflexivity. Qed.
+
+Theorem float_presentations_one_matrix k (m : list (list Q)) ls : m <> [] -> (0 < k)%nat -> rect k m ->
+  abs (ArrF (transpose m)) = abs (ArrC m) /\ abs (Nested m) = abs (ArrC m) /\
+  abs (Frame ls (map QCol (transpose m))) = abs (ArrC m).
+Proof.
+  intros Hne Hk Hr. unfold abs. cbn [raw_matrix]. rewrite col_values_QCol, (transpose_involutive k) by assumption. auto.
+Qed.
+
+(* integer-typed counts, in any layout / container, are the same request as the float array holding the same integers *)
+Theorem int_presentations_one_matrix k (mz : list (list Z)) ls : mz <> [] -> (0 < k)%nat -> rect k mz ->
+  abs (IntArrC mz) = abs (ArrC (of_ints mz)) /\ abs (IntNested mz) = abs (ArrC (of_ints mz)) /\
+  abs (IntArrF (transpose mz)) = abs (ArrC (of_ints mz)) /\
+  abs (Frame ls (map ZCol (transpose mz))) = abs (ArrC (of_ints mz)).
+Proof.
+  intros Hne Hk Hr. unfold abs. cbn [raw_matrix]. rewrite col_values_ZCol. unfold of_ints.
+  rewrite transpose_map, (transpose_involutive k) by assumption. auto.
+Qed.
+
 (* ------------------------------------------------------------------ soundness of the in-kernel checker *)
 Lemma index_of_lt s ls i : index_of s ls = Some i -> (i < List.length ls)%nat.
 Proof.
@@ -265,6 +354,9 @@ Example ex_presentations_one_matrix :
   /\ leqb (leqb q_eqb) (abs (IntArrC [[1; 3]; [2; 4]]%Z)) (abs (IntArrF [[1; 2]; [3; 4]]%Z)) = true
   /\ leqb (leqb q_eqb) (abs (IntNested [[1; 3]; [2; 4]]%Z)) (abs (ArrF [[1; 2]; [6#2; 4]])) = true.
 Proof. vm_compute. auto. Qed.
+
+Example ex_rect : ex_rows <> [] /\ (0 < 2)%nat /\ rect 2 ex_rows.
+Proof. split; [discriminate|]. split; [auto|]. repeat constructor. Qed.
 
 (* an instance of the hypotheses of presentation_independent with a non-empty answer and adversarial labels *)
 Definition ex_discover (rq : request) : result :=
